@@ -9,6 +9,14 @@ CLAIMED = {
   text="Proof (all inputs): auth.verify is verified against an if-and-only-if admission contract taken from the property statement, plus exact status mapping, verifier called at most once and only with the presented token, and panic-freedom; loop invariant over the scope loop. Violations are failed named obligations.",
   note="Trusted: library contracts in specs/stdlib.spec (strings.Fields/ToLower, slices.Contains, errors.Is, time.Time.IsZero/Add/Before, http.Header.Get as uninterpreted functions), the VC generator, go/ssa, the solvers. The verifier callback and user handler are havocked (any behaviour). Not decided: content of the WWW-Authenticate challenge string, time arithmetic inside package time.",
   ref="DESIGN.md 10/C14"),
+ "C07": dict(
+  text="Proof (all inputs) of the negotiation kernel: negotiatedVersion, negotiateMutuallySupportedVersion (loop invariant), both transports' SupportsProtocolVersion against contracts transcribed from the statement; the package initializer is shown to establish the supported-version list and a frame check shows the list is never reassigned, mutated or aliased.",
+  note="Trusted: slices.Contains contract, SMT string order for version comparison, the VC generator/go-ssa/solvers. Not yet under contract (hence not decided): filterSupportedVersions, Server.discover, Client.discover, Client.Connect (the composition 'every connected session negotiated a mutually supported version' is argued in DESIGN.md from these kernels); 'can immediately list and call tools' is not decidable by contracts.",
+  ref="DESIGN.md 10/C07"),
+ "C06": dict(
+  text="Proof (all inputs, hence by induction all message sequences): the receive gate of ServerSession.handle as assertions at the dispatch point (legacy uninitialized => only lifecycle methods; new protocol => supported version and no removed method; discover needs metadata), exact error codes, ping always served; validateRequestMeta (new protocol only with version >= 2026-07-28 and decodable capabilities/clientInfo, errors are -32602); initialize/initialized transitions (duplicate/premature rejected with state unchanged, user handler not run). The check found defect F1 (setLevel/subscribe/unsubscribe/roots-list-changed bypassed the gate), reproduced on the real code and repaired by a fix: commit.",
+  note="Trusted: stdlib.spec contracts (fmt.Errorf non-nil, slices.Contains, json decoders write only through their destination), extractRequestMeta modelled as heap-preserving (trusted), the interface contract of serverConnection.sessionUpdated (its only implementation is verified against it), user handlers havocked. Per-message sequential semantics: the lifecycle bit is the value read under ss.mu at the top of handle.",
+  ref="DESIGN.md 10/C06"),
 }
 
 NOT_YET = "contracts not completed yet (build in progress; see DESIGN.md section 12)"
